@@ -61,12 +61,6 @@ class Gen:
     def fresh(self, prefix):
         self.counter += 1
         # names do not always end in a digit (file names are derived from them by the loader)
-        if self.letter_suffixes and self.r.random() < 0.06:
-            kw = [k for k in ("request", "error", "record", "enum", "fixed", "map", "array", "union") if k not in self._kw_used]
-            if kw:
-                k = self.r.choice(kw)
-                self._kw_used.add(k)
-                return k                   # a type may be called like a keyword of the schema language
         return "%s%d%s" % (prefix, self.counter, self.r.choice(["", "", "", "s", "a", "vc", "avsc"]) if self.letter_suffixes else "")
 
     def fresh_named(self, prefix, tns):
@@ -75,6 +69,14 @@ class Gen:
             n = self._forced[1]
             self._forced = None
             return n
+        if self.letter_suffixes and tns != "" and self.r.random() < 0.06:
+            # a type may be called like a keyword of the schema language - inside a namespace (in the null namespace the bare name IS
+            # the keyword for the library: DESIGN 11.4b)
+            kw = [k for k in ("request", "error", "record", "enum", "fixed", "map", "array", "union") if k not in self._kw_used]
+            if kw:
+                k = self.r.choice(kw)
+                self._kw_used.add(k)
+                return k
         if self.use_ns and self.r.random() < 0.12:
             cands = [d["full"].rsplit(".", 1)[-1] for d in self.defs.values() if d["ns"] != tns]
             cands = [s for s in cands if self.full(tns, s) not in self.defs and not s.startswith("Al") and s != self._reserved]
